@@ -98,6 +98,9 @@ def outer_chain(n):
   return posonly_defaults(helper_chain(n), 2, mode=[helper_chain(n + 1)])
 
 
+from fiddle._src import arg_factory as _af
+
+
 def bind_canon(x, unbound_identity=True):
   """Canonical form in which callables appearing as values (functions, classes and
   functools.partial objects) print as (underlying callable, full binding after bind_partial +
@@ -127,8 +130,15 @@ def bind_canon(x, unbound_identity=True):
     if isinstance(v, functools.partial) or (callable(v) and not isinstance(v, (Rec, Tok)) and
                                             (inspect.isfunction(v) or inspect.isclass(v))):
       func, args, kw = (v.func, v.args, v.keywords) if isinstance(v, functools.partial) else (v, (), {})
-      while isinstance(func, functools.partial):
-        args, kw, func = func.args + args, {**func.keywords, **kw}, func.func
+      # chains are flattened the way calling them composes: partial(partial(f, a), b) = f(a, b);
+      # arg_factory's wrapper only evaluates the ArgFactory-marked arguments and passes on
+      while True:
+        if isinstance(func, functools.partial):
+          args, kw, func = func.args + args, {**func.keywords, **kw}, func.func
+        elif isinstance(func, _af._InvokeArgFactoryWrapper):
+          func = func.func
+        else:
+          break
       try:
         ba = inspect.signature(func).bind_partial(*args, **kw)
         ba.apply_defaults()
@@ -136,6 +146,8 @@ def bind_canon(x, unbound_identity=True):
       except Exception:
         binding = [[str(i), go(a)] for i, a in enumerate(args)] + [[k, go(x)] for k, x in kw.items()]
       return ['callable', n, graphs.callable_name(func), binding]
+    if isinstance(v, _af.ArgFactory):
+      return ['argfactory', n, go(v.factory)]
     if isinstance(v, Rec):
       return ['rec', n, v.fn_name, [[k, go(x)] for k, x in v.slots], [go(x) for x in v.var],
               [[k, go(x)] for k, x in sorted(v.kw.items())]]
